@@ -2,9 +2,9 @@ CONSTANTS
   Key = {"a", "b"}
   Val = {1, 2}
   Proc = {1, 2}
-  MaxGen = 4
-  LegKeys = {}
-  MaxCrash = 2
+  MaxGen = 3
+  LegKeys = {"a", "b"}
+  MaxCrash = 1
 SPECIFICATION MCSpec
 INVARIANT PointerValid
 INVARIANT Immutable
